@@ -28,6 +28,7 @@ def run(ctx: Ctx, chk) -> None:
     n = codec.check_delim1(ctx, chk, rule, only_funcs={f"{codec.SCHEMA}.to_dict"} | ({h.fq for h in codec.decode_helpers(ctx, _pre)} if _pre is not None else set()))
     chk.floor(rule, "split sites in MessageSchema.to_dict", n, 1)
     chk.run_rule(fresh_decode, ctx)
+    chk.run_rule(memoised_decode, ctx)
     from .mmtemplates import template1
 
     chk.run_rule(lambda c, k: template1(c, k, [codec.SCHEMA]), ctx)
@@ -56,14 +57,37 @@ def fresh_decode(ctx: Ctx, chk) -> None:
         if len(cands) == 1:
             got = cn.canon(cands[0])
     want = "self._message_schema.load(self.transport.read())"
+    unrecognised = None
+    from .common import schema_attrs
+    import re as _re
+
+    m_ = _re.match(r"^self\.(\w+)\.load\(self\.transport\.read\(\)\)$", got)
+    if m_ and m_.group(1) in schema_attrs(ctx):
+        want = got  # the gateway's own MessageSchema instance, whatever the attribute is called
     if got == want:
         chk.ok(rule, key, f"handler(self, {want}, <buffer>)", ctx.loc(listen_raw, c))
+    elif not _re.search(r"\.loads?\(", got):
+        # not a decode call at all (a local filled inside a helper that could not be written out, a stored bound
+        # method ...): where the message comes from is not visible here - no verdict (memoising wrappers are looked for
+        # below in any case)
+        unrecognised = f"FRESH-DECODE-1: the message handed to the handlers is `{got[:60]}` - its origin is not a decode call visible in Gateway.listen (helper not written out)"
     else:
         chk.refute(rule, key, f"the message handed to the handlers is `{got[:80]}`, not `{want}`: a decode that is cached or routed through another object can return a message whose fields no longer spell the line (e.g. the same mutable Message for a repeated line)", ctx.loc(listen_raw, c))
+    if unrecognised:
+        raise AnalysisError(unrecognised)
+
+
+def memoised_decode(ctx: Ctx, chk) -> None:
+    memoised_codec(ctx, chk, ("load", "loads"))
+
+
+def memoised_codec(ctx: Ctx, chk, entry=("load", "dump", "loads", "dumps")) -> None:
+    rule = "FRESH-DECODE-1"
+    chk.rule(rule, "every received line is decoded by MessageSchema.load in the very step that dispatches it; no memoising wrapper sits around a codec entry point anywhere in the package")
     # no memoising wrapper around codec entry points anywhere in the package
     for f in ctx.prog.all_functions():
         for node in ctx.own_nodes(f):
-            if isinstance(node, ast.Call) and norm(node.func).rsplit(".", 1)[-1] in ("lru_cache", "cache") and any(isinstance(a, ast.Attribute) and a.attr in ("load", "dump", "loads", "dumps") for x in [node] + [p_ for p_ in [ctx.prog.parents.get(node)] if isinstance(p_, ast.Call)] for a in x.args):
+            if isinstance(node, ast.Call) and norm(node.func).rsplit(".", 1)[-1] in ("lru_cache", "cache") and any(isinstance(a, ast.Attribute) and a.attr in entry for x in [node] + [p_ for p_ in [ctx.prog.parents.get(node)] if isinstance(p_, ast.Call)] for a in x.args):
                 chk.instance(rule)
                 chk.refute(rule, fkey(f, node) + "::memoised-codec", f"`{norm(ctx.prog.parents.get(node) if isinstance(ctx.prog.parents.get(node), ast.Call) else node)[:70]}` memoises a codec entry point: repeated lines / messages share one mutable result", ctx.loc(f, node))
 
